@@ -374,7 +374,13 @@ class IPPO(MultiAgentRLAlgorithm):
         :rtype: torch.Tensor[float] or dict[str, torch.Tensor[float]] or Tuple[torch.Tensor[float], ...]
         """
         preprocessed = {homo_id: [] for homo_id in self.shared_agent_ids}
-        for agent_id, obs in observation.items():
+        # NOTE: Outputs of a shared policy are split per agent in self.agent_ids order, so
+        # follow that order rather than the insertion order of the observation dictionary
+        ordered_ids = [a for a in self.agent_ids if a in observation] + [
+            a for a in observation if a not in self.agent_ids
+        ]
+        for agent_id in ordered_ids:
+            obs = observation[agent_id]
             homo_id = self.get_homo_id(agent_id)
             preprocessed[homo_id].append(
                 preprocess_observation(
